@@ -180,7 +180,7 @@ def run(chk):
     chk.rule = ("base texts: random conforming texts of each family schema, half of them damaged by 1-2 line-level faults, a "
                 "third with a %define and a use of it; for each, the inlined scenario and up to 4 cut variants (1..3 balanced "
                 "cuts, nested, fragments in same / sub / parent directory, decoy files at the places a wrong base URL would "
-                "resolve to) plus one variant with an unbalanced fragment; one more schema has an abstract slot filled by "
+                "resolve to; a quarter of them named through a symbolic link that leads to another directory) plus one variant with an unbalanced fragment; one more schema has an abstract slot filled by "
                 "%import-ed types, with %import lines and uses of imported types at random top-level positions; non-trivial = at least one %include was produced")
     # + a schema with an abstract slot whose implementers come from %import-ed packages: imports before, inside
     #   and after the fragments (the vocabulary of a load is shared by all its resources, in reading order)
@@ -219,7 +219,7 @@ def run(chk):
                 if c is None:
                     continue
                 files, desc, resolve = c
-                sc.add(sid, files, twin=base, meta={"cuts": desc, "resolve": resolve})
+                sc.add(sid, files, twin=base, meta={"cuts": desc, "resolve": resolve, "main_link": rng.random() < 0.25})
             di = double_include(rng, lines)
             if di is not None:
                 b2 = sc.add(sid, {"d/main.conf": di[0]}, meta={"nontrivial": False})
